@@ -1,6 +1,6 @@
 (** Property C18 -- tab stops.
     Only pinned statements, closed by [exact], with their assumptions printed. *)
-From Avt Require Import Oracles.Step Proofs.Inv Proofs.Tabs.
+From Avt Require Import Oracles.Step Proofs.Inv Proofs.Tabs Proofs.StepC18.
 
 Theorem C18_new : forall c k, is_stop (tabs_new c) k = default_stop c k.
 Proof. exact tabs_new_spec. Qed.
@@ -44,3 +44,15 @@ Theorem C18_fresh : forall c c', 1 <= c -> 1 <= c' -> tabs_resize c c' (tabs_new
 Proof. exact C18_fresh_resize. Qed.
 Check C18_fresh : forall c c', 1 <= c -> 1 <= c' -> tabs_resize c c' (tabs_new c) = tabs_new c'.
 Print Assumptions C18_fresh.
+
+(** the executable statement evaluated on the implementation is a theorem of the model: HTS / CTC / TBC / RIS act on the stop set as specified, every other function leaves it alone *)
+Theorem C18_statement : forall p p' t f t', TInv t -> execute t f = Ok t' -> holds_C18 (mkVt p t) f (mkVt p' t') = true.
+Proof. exact C18_holds. Qed.
+Check C18_statement : forall p p' t f t', TInv t -> execute t f = Ok t' -> holds_C18 (mkVt p t) f (mkVt p' t') = true.
+Print Assumptions C18_statement.
+
+(** resizing the terminal: surviving stops kept, disappearing columns' stops dropped, default stops added in the new columns; default tabs stay default *)
+Theorem C18_resize_statement : forall p p' t c r t', TInv t -> 1 <= c -> 1 <= r -> term_resize t c r = Ok t' -> holds_C18_resize (mkVt p t) (mkVt p' t') = true /\ (tabs_are_default t = true -> tabs_are_default t' = true).
+Proof. exact C18_resize_holds. Qed.
+Check C18_resize_statement : forall p p' t c r t', TInv t -> 1 <= c -> 1 <= r -> term_resize t c r = Ok t' -> holds_C18_resize (mkVt p t) (mkVt p' t') = true /\ (tabs_are_default t = true -> tabs_are_default t' = true).
+Print Assumptions C18_resize_statement.
